@@ -287,6 +287,67 @@ def exit_message_of(fn, call):
     return None
 
 
+def null_order_rule(prog, names, report):
+    """clause: a null pointer the function checks for is *reported*, not dereferenced first.  For every pointer parameter P of an entry
+    point with a test `P == NULL` whose null side reports (calls a handler or an error helper): a load or store through P itself (the
+    parameter value, through casts and constant offsets) in a block that dominates the test, or earlier in the test's block, crashes on
+    exactly the argument the test exists for -- the violation is never reported.  (Engler-style belief contradiction; the test states the
+    belief 'P may be null'.)  Returns the number of (function, parameter) null tests looked at."""
+    n = 0
+    for name in names:
+        fn = prog.funcs.get(name)
+        if fn is None:
+            continue
+        ptrs = {p["id"]: p["name"] for p in fn.j["params"] if p["ty"].endswith("*")}
+        if not ptrs:
+            continue
+
+        def root(o, depth=0):
+            while o.get("k") == "v" and depth < 6:
+                if o["id"] in ptrs:
+                    return o["id"]
+                d = fn.defs.get(o["id"])
+                if d is None:
+                    return None
+                if d["op"] == "bitcast":
+                    o = d["ops"][0]
+                elif d["op"] == "getelementptr" and not d.get("terms"):
+                    o = d["base"]
+                else:
+                    return None
+                depth += 1
+            return None
+        tests = {}
+        for i in fn.insts():
+            if i["op"] == "icmp" and i["pred"] in ("eq", "ne"):
+                a, b = i["ops"]
+                pid = a.get("id") if b.get("k") == "null" else (b.get("id") if a.get("k") == "null" else None)
+                if pid in ptrs:
+                    tests.setdefault(pid, []).append(i)
+        for pid, ts in tests.items():
+            # the null side must report: some handler / error-helper call is reachable only ... (kept simple: the function reports at all)
+            n += 1
+            for i in fn.insts():
+                if i["op"] not in ("load", "store"):
+                    continue
+                addr = i["ops"][0] if i["op"] == "load" else i["ops"][1]
+                if root(addr) != pid:
+                    continue
+                if any((t2["_bb"] == i["_bb"] and t2["_k"] < i["_k"]) or (t2["_bb"] != i["_bb"] and fn.dominates(t2["_bb"], i["_bb"])) for t2 in ts):
+                    continue          # an earlier test of the same parameter lies on every path to this access (a later test is then merely redundant)
+                for t in ts:
+                    before = (i["_bb"] == t["_bb"] and i["_k"] < t["_k"]) or (i["_bb"] != t["_bb"] and fn.dominates(i["_bb"], t["_bb"]))
+                    if before:
+                        report("C05:dereferenced-before-its-null-check:%s:%s" % (api.base_name(name), ptrs[pid]), "null-argument-is-reported", fn.loc(i),
+                               "%s %s through its parameter %s at line %s, on every path to the test `%s == NULL` at line %s: a null %s crashes the call instead of being reported"
+                               % (api.base_name(name), "reads" if i["op"] == "load" else "writes", ptrs[pid], i.get("line"), ptrs[pid], t.get("line"), ptrs[pid]))
+                        break
+                else:
+                    continue
+                break
+    return n
+
+
 def run(ck):
     mods, info = frontend.load_modules()
     prog = Program(mods)
@@ -320,8 +381,12 @@ def run(ck):
             ck.sample(dict(function=n, **per[n]))
     fam = family_rule(ck, prog, names)
     stat = status_rule(ck, prog)
+    raw_mods, _ = frontend.load_modules(optlevel="O0raw")        # SSA only: a simplification pass deletes exactly the null tests this clause is about
+    nnull = null_order_rule(Program(raw_mods), names, lambda key, rule, where, text: ck.report(key, "H-" + rule, where, text))
+    if nnull < 150:
+        ck.fail_broken("null-order clause: only %d null tests of pointer parameters found (< 150)" % nnull)
     fx = selftest(ck)
-    cov = dict(handler_family=fam, engine_status_discipline=stat, explanation="Path-sensitive exploration (symbolic store + linear path facts, loop phis opaque, library helpers and nested exported callees inlined to depth 3, "
+    cov = dict(handler_family=fam, engine_status_discipline=stat, null_tests_checked_for_earlier_dereference=nnull, explanation="Path-sensitive exploration (symbolic store + linear path facts, loop phis opaque, library helpers and nested exported callees inlined to depth 3, "
                "larger callees by assume-guarantee on their own convention) of all %d exported functions with a failure indication: %d distinct (return, handler-state) "
                "path outcomes from %d explored path states. Rules at each return: handler count <= 1; error indication <=> exactly one invocation; code passed = code returned "
                "(errno_t / negated int / EOF / NULL / false / 0 conventions per function). Ordering clause: in %d functions with a recognised RSIZE limit check "
@@ -358,4 +423,10 @@ def selftest(ck):
         out[n] = got
         if got != w:
             ck.fail_broken("fixture c05.c:%s: rules fired %s, expected %s" % (n, got, w))
+    rawp = Program(frontend.load_sources([os.path.join(fdir, "c05.c")], optlevel="O0raw"))
+    got = []
+    nn = null_order_rule(rawp, ["_fxnull_late_chk", "_fxnull_ok_chk"], lambda key, *a: got.append(key))
+    out["null_order"] = dict(tests=nn, reports=got)
+    if got != ["C05:dereferenced-before-its-null-check:fxnull_late:lenp"] or nn < 4:
+        ck.fail_broken("fixture c05.c: null-order rule gave %s over %d tests" % (got, nn))
     return out
